@@ -1,6 +1,8 @@
 package ops
 
 import (
+	"math"
+
 	"gorgonia.org/tensor"
 )
 
@@ -60,10 +62,11 @@ func ReLU(X tensor.Tensor) (tensor.Tensor, error) {
 		return nil, err
 	}
 
-	comparison, err := tensor.Gt(X, typedZero, tensor.AsSameType())
+	typedInf, err := GetValueAsTensorType(math.Inf(1), X.Dtype())
 	if err != nil {
 		return nil, err
 	}
 
-	return tensor.Mul(X, comparison)
+	// Clamping (instead of multiplying with X > 0) keeps ReLU(-Inf) = 0 rather than NaN.
+	return tensor.Clamp(X, typedZero, typedInf)
 }
